@@ -333,7 +333,8 @@ def make_method_contract(fam, meth):
     M.__name__ = f"Method_{fam}_{meth}"
     # the joint density / distribution function (C06) and the Rosenblatt maps of the contours (C01) call these methods
     # through the DistLike interface: its frame and value clauses are discharged here, per family
-    props = ["C05", "C08", "C19"] + (["C06"] if meth in ("pdf", "cdf") else []) + (["C01"] if meth == "icdf" else [])
+    # the cell probabilities of the highest density contour (C02) are differences of these cdf values
+    props = ["C05", "C08", "C19"] + (["C06"] if meth in ("pdf", "cdf") else []) + (["C01"] if meth == "icdf" else []) + (["C02"] if meth == "cdf" else [])
     return contract(D + fam + "." + meth, props, _method_cases(fam), name=f"post.{fam}.{meth}")(M)
 
 
